@@ -121,5 +121,14 @@ package time
 //@   uses umul_exactl(-1, tzh*60*60 + tzm*60)
 //@   loop 1 invariant n >= 21 && 0 <= iterpos() && iterpos() <= n - 20 && (forall k int :: 20 <= k && k < 20 + iterpos() ==> isd(in, k))
 //@   loop 1 invariant i == (iterpos() == 0 ? 0 : iterpos() - 1)
-//@   loop 1 invariant mult == p10(9 - min9(iterpos())) && val == dv(in, 20, min9(iterpos()))
+//@   loop 1 invariant iterpos() == 0 ==> mult == 1000000000 && val == dv(in, 20, 0)
+//@   loop 1 invariant iterpos() == 1 ==> mult == 100000000 && val == dv(in, 20, 1)
+//@   loop 1 invariant iterpos() == 2 ==> mult == 10000000 && val == dv(in, 20, 2)
+//@   loop 1 invariant iterpos() == 3 ==> mult == 1000000 && val == dv(in, 20, 3)
+//@   loop 1 invariant iterpos() == 4 ==> mult == 100000 && val == dv(in, 20, 4)
+//@   loop 1 invariant iterpos() == 5 ==> mult == 10000 && val == dv(in, 20, 5)
+//@   loop 1 invariant iterpos() == 6 ==> mult == 1000 && val == dv(in, 20, 6)
+//@   loop 1 invariant iterpos() == 7 ==> mult == 100 && val == dv(in, 20, 7)
+//@   loop 1 invariant iterpos() == 8 ==> mult == 10 && val == dv(in, 20, 8)
+//@   loop 1 invariant iterpos() >= 9 ==> mult == 1 && val == dv(in, 20, 9)
 //@   loop 1 decreases (n - 20) - iterpos()
